@@ -66,7 +66,9 @@ def chunked_body(draw, data, odd):
         k += 1
         line = hexsize(draw, sz, o and draw(st.booleans()))
         ext = ""
-        if draw(st.integers(0, 5)) == 0:
+        if draw(st.integers(0, 60)) == 0:
+            ext = ";x=" + "e" * draw(st.sampled_from([1000, 1030, 3000, 8200, 9000]))
+        elif draw(st.integers(0, 5)) == 0:
             ext = draw(st.sampled_from([";a=b", " ;a", ";", ';q="x;y"', "\t; a = b", ";a=\n", ";\x00", ";a=b;c=d",
                                         '; q="\r\n"' if o else ";z"]))
         term = "\r\n"
@@ -248,7 +250,11 @@ MUT_BYTES = ["\r", "\n", " ", "\t", "\x00", ":", ";", ",", "0", "1", "a", "\x0b"
 @st.composite
 def stream(draw, obfuscate=True, max_requests=3, mutate=True):
     nreq = draw(st.integers(1, max_requests))
-    parts = [draw(request(obfuscate=obfuscate)) for _ in range(nreq)]
+    parts = []
+    for i in range(nreq):
+        if obfuscate and draw(st.integers(0, 7)) == 0:
+            parts.append(draw(st.sampled_from(["\r\n", "\n", "\r\n\r\n", " ", "\r"])))    # stray bytes before a request line
+        parts.append(draw(request(obfuscate=obfuscate)))
     s = "".join(parts)
     tail = draw(st.integers(0, 9))
     if tail == 0:
